@@ -30,8 +30,15 @@ var xSamples = []struct {
 	{"BE", xlatesample.BE}, {"Str", xlatesample.Str}, {"Switch", xlatesample.Switch}, {"SwitchRet", xlatesample.SwitchRet},
 	{"IfMerge", xlatesample.IfMerge}, {"Swap", xlatesample.Swap}, {"RangeSum", xlatesample.RangeSum}, {"RangeMinMax", xlatesample.RangeMinMax},
 	{"Count", xlatesample.Count}, {"CountRet", xlatesample.CountRet}, {"Struct", xlatesample.Struct}, {"Ret0", xlatesample.Ret0},
-	{"Collect", xlatesample.Collect}, {"Make", xlatesample.Make}, {"Search", xlatesample.Search}, {"Widen", xlatesample.Widen}, {"SortDesc", xlatesample.SortDesc}, {"StrOrder", xlatesample.StrOrder},
+	{"Collect", xlatesample.Collect}, {"Make", xlatesample.Make}, {"Search", xlatesample.Search}, {"Widen", xlatesample.Widen}, {"SortDesc", xlatesample.SortDesc}, {"StrOrder", xlatesample.StrOrder}, {"LoopCut", xlatesample.LoopCut}, {"FillPkt", xlatesample.FillPkt}, {"MapErr", xlatesample.MapErr}, {"SumTo", xlatesample.SumTo}, {"NormCmp", xlatesample.NormCmp}, {"GuardOrder", xlatesample.GuardOrder}, {"GuardPanic", xlatesample.GuardPanic},
 }
+
+// pure samples with a `for { }` loop take fuel
+var xSampleFuel = map[string]bool{"LoopCut": true}
+
+// samples whose error results are values (unit option ErrVals): the error struct's name
+var xSampleErrVals = map[string]string{"MapErr": "E"}
+var xErrValsNow string // set while the results of such a sample are written
 
 // boundary values of a parameter type
 func xGrid(t reflect.Type) []reflect.Value {
@@ -54,6 +61,9 @@ func xGrid(t reflect.Type) []reflect.Value {
 				add(v)
 			}
 		}
+	case reflect.Bool:
+		add(false)
+		add(true)
 	case reflect.String:
 		for _, v := range []string{"", "tcp", "ssl", "s", "udp", "tcpx", "tc", "\xff", "tcq"} {
 			add(v)
@@ -61,7 +71,7 @@ func xGrid(t reflect.Type) []reflect.Value {
 	case reflect.Slice:
 		switch t.Elem().Kind() {
 		case reflect.Uint8:
-			for _, v := range [][]byte{nil, {7}, {0, 7, 255}, {1, 2, 3, 4, 5}, {255, 254, 253, 252, 251, 250, 249, 248, 7, 1, 0}} {
+			for _, v := range [][]byte{nil, {7}, {0, 7, 255}, {1, 2, 3, 4, 5}, {255, 254, 253, 252, 251, 250, 249, 248, 7, 1, 0}, {2, 9, 3, 1, 1, 1, 5}, {1, 1, 1, 0, 4}, {3, 0, 7, 2, 8}} {
 				add(v)
 			}
 		case reflect.Int32:
@@ -97,6 +107,16 @@ func xCoqVal(v reflect.Value) string {
 	case reflect.Bool:
 		return fmt.Sprint(v.Bool())
 	case reflect.Interface: // an error: nil or not
+		if xErrValsNow != "" { // an error value: nil, the error struct, or a text (errors.New)
+			rec := "go_xlatesample_" + xErrValsNow
+			if v.IsNil() {
+				return "(@GoErrNil " + rec + ")"
+			}
+			if el := v.Elem(); el.Kind() == reflect.Ptr && el.Elem().Kind() == reflect.Struct && el.Elem().Type().Name() == xErrValsNow {
+				return "(GoErrVal " + xCoqVal(el.Elem()) + ")"
+			}
+			return "(@GoErrNew " + rec + " " + xBytesLit(v.Interface().(error).Error()) + ")"
+		}
 		return fmt.Sprint(!v.IsNil())
 	case reflect.String:
 		return xBytesLit(v.String())
@@ -112,6 +132,9 @@ func xCoqVal(v reflect.Value) string {
 	case reflect.Struct:
 		fs := []string{"Build_go_" + filepath.Base(v.Type().PkgPath()) + "_" + v.Type().Name()}
 		for i := 0; i < v.NumField(); i++ {
+			if v.Field(i).Kind() == reflect.Map { // outside the subset: not a member of the generated record
+				continue
+			}
 			fs = append(fs, xCoqVal(v.Field(i)))
 		}
 		return "(" + strings.Join(fs, " ") + ")"
@@ -268,7 +291,7 @@ func init() {
 		}
 		var units []xUnit
 		for _, s := range xSamples {
-			units = append(units, xUnit{Name: "tr_s_" + s.name, Dir: "xlatesample", Func: s.name})
+			units = append(units, xUnit{Name: "tr_s_" + s.name, Dir: "xlatesample", Func: s.name, Fuel: xSampleFuel[s.name], ErrVals: xSampleErrVals[s.name]})
 		}
 		for _, s := range xRdSamples {
 			units = append(units, xUnit{Name: "tr_s_" + s.name, Dir: "xlatesample", Func: "R." + s.name, State: sampleReader, Fuel: s.fuel, Group: s.group})
@@ -292,6 +315,7 @@ func init() {
 				n *= len(grids[i])
 			}
 			var ins, outs []string
+			xErrValsNow = xSampleErrVals[s.name]
 			for k := 0; k < n; k++ { // the full product of the grids
 				args := make([]reflect.Value, len(grids))
 				for i, r := 0, k; i < len(grids); i++ {
@@ -302,9 +326,14 @@ func init() {
 				for _, v := range args {
 					as = append(as, xCoqVal(v))
 				}
-				ins = append(ins, "tr_s_"+s.name+" "+strings.Join(as, " "))
+				fuel := ""
+				if xSampleFuel[s.name] {
+					fuel = " 40"
+				}
+				ins = append(ins, "tr_s_"+s.name+fuel+" "+strings.Join(as, " "))
 				outs = append(outs, xCallSample(f, args))
 			}
+			xErrValsNow = ""
 			total += n
 			fmt.Printf("\nExample selftest_%s :\n  [%s]\n  = [%s].\nProof. vm_compute. reflexivity. Qed.\n", s.name, strings.Join(ins, ";\n   "), strings.Join(outs, ";\n     "))
 		}
